@@ -1,4 +1,4 @@
-import SgVerif.C10.Lemmas
+import SgVerif.C10.Track3
 /-
 C10 — resource failures are reported to every live participant.  Property theorems (nothing else in this file).
 All theorems are over arbitrary states of the transition system of Model.lean (any number of hosts, links, actors,
@@ -142,6 +142,93 @@ theorem linkOff_fails_every_user (s : St) (l k : Nat) (hon : s.linkOn l = true) 
   · intro _; exact ha
   · intro hnin; exact absurd (List.mem_range.mpr hk) hnin
 
+/-- **Host-off analogue of `linkOff_fails_every_user`.**  `Host::turn_off` starts with `CpuImpl::turn_off`
+(`cancel_actions`): every execution or sleep placed on the host whose action is live has it FAILED and queued for
+`handle_ended_actions` (unless the kill loop that follows already finished it: see `failure_reaches_all_waiters`). -/
+theorem hostOff_fails_every_user (s : St) (h k : Nat) (hk : k < s.nActs) (hc : (s.acts k).kind ≠ .comm)
+    (hh : h ∈ (s.acts k).hosts) (ha : (s.acts k).action = some .started) :
+    ((cpuCancelActions s h).acts k).action = some .failed ∧ k ∈ (cpuCancelActions s h).failedQ := by
+  have : cpuCancelActions s h = cpuPhase h s := rfl
+  rw [this]
+  unfold cpuPhase
+  apply failFold_hits
+  left
+  exact ⟨List.mem_range.mpr hk, ha, hc, hh⟩
+
+/-- **`handle_ended_actions` reports every failed action.**  In any state whose failed action set is well formed
+(`QOK`: its entries still have an action), for every activity `k` of the set that is hit by a resource failure (`Hit`:
+a communication with a failed action or an endpoint host off, an execution with a host off) and every answerable
+issuer `a` registered on it: when `handle_ended_actions` returns, `a` has been answered *during that call* — by `k` with
+the exception of the spec table (NetworkFailureException / HostFailureException), or, when `a` sits in a wait_any, by
+another activity of its set that was finished earlier in the same call — unless an assertion of the kernel fired. -/
+theorem handle_ended_reports_every_failed_action (t : St) (k a : Nat) (hq : QOK t) (hin : k ∈ t.failedQ) (hit : Hit t k)
+    (ha : Answerable t a) (hm : a ∈ (t.acts k).simcalls) :
+    DoneR t (handleEndedAll t) a k (.exc (specExc (t.acts k).kind)) :=
+  done_handleEnded _ t ⟨ha, hm, hit, hin, rfl, hq⟩ (Nat.le_max_right _ _)
+
+/-- how a resource failure event hits a running activity -/
+inductive HitBy (s : St) (k : Nat) : Ev → Prop
+  /-- a link of the route of a communication -/
+  | link (l : Nat) : s.linkOn l = true → (s.acts k).kind = .comm → l ∈ (s.acts k).links → HitBy s k (.linkOff l)
+  /-- a host on which an execution runs -/
+  | hostExec (h : Nat) : s.hostOn h = true → (s.acts k).kind = .exec → h ∈ (s.acts k).hosts → HitBy s k (.hostOff h)
+
+/-- the issuer does not live on the host that is turned off (otherwise it is killed: `killed_on_host_off`) -/
+def Survives (s : St) (a : Nat) : Ev → Prop
+  | .hostOff h => (s.actors a).host ≠ h
+  | _ => True
+
+/-- **failure_reaches_all_waiters (run level).**  Take any state `s` with a well-formed failed action set, a RUNNING
+activity `k` (its action is live) that uses a link / a host that is on, and turn that resource off (`e`); let maestro
+finish its iteration (`handle_ended_actions`).  Then EVERY simcall registered on `k` whose issuer `a` is answerable
+(blocked, alive, on a host that is on) and does not itself live on the failed host has been answered within these two
+steps: by `k` with the failure kind of the spec table — NetworkFailureException for a communication,
+HostFailureException for an execution — or (wait_any) by another activity of its set that finished in the same
+iteration; or an assertion of the kernel fired.  Nothing is assumed on the rest of the state: any number of actors,
+activities, other pending failures, wait_any sets, dying actors.
+Composition of `linkOff_fails_every_user` / `hostOff_fails_every_user`, the kill loop of `HostImpl::turn_off`
+(`ActorImpl::exit` of every actor of the host, which may itself finish `k`), and `handle_ended_reports_every_failed_action`.
+Not covered (see NOTES): a communication whose *peer's* host fails — there the action is failed by the dying peer's
+`exit()`; `failure_reaches_all_waiters_comm` covers the `finish` that follows, the composition is not proved. -/
+theorem failure_reaches_all_waiters (s : St) (e : Ev) (k a : Nat) (hq : QOK s) (hk : k < s.nActs)
+    (hrun : (s.acts k).action = some .started) (hit : HitBy s k e)
+    (ha : Answerable s a) (hs : Survives s a e) (hm : a ∈ (s.acts k).simcalls) :
+    DoneR s (run s [e, .handleEnded]) a k (.exc (specExc (s.acts k).kind)) := by
+  show DoneR s (step (step s e) .handleEnded) a k _
+  by_cases hcr : s.crashed = true
+  · left; simp [step, hcr]
+  · cases hit with
+    | link l hon hc hl =>
+      have p := pend_linkOff s l k a hon hk hc hl hrun hq ha hm
+      have e1 : Ext s (linkOff s l) := (simp_linkOff a s l).ext
+      have h1 : step s (.linkOff l) = linkOff s l := by simp [step, hcr]
+      rw [h1, hc]
+      by_cases hc2 : (linkOff s l).crashed = true
+      · left; simp [step, hc2]
+      · have h2 : step (linkOff s l) .handleEnded = handleEndedAll (linkOff s l) := by simp [step, hc2]
+        rw [h2]
+        exact done_of_res _ e1 (Or.inr (Or.inr (Or.inr p))) (Nat.le_max_right _ _)
+    | hostExec h hon hc hh =>
+      have h1 : step s (.hostOff h) = hostOff s h := by simp [step, hcr]
+      rw [h1, hc, hostOff_eq s h hon]
+      have hah : (s.actors a).host ≠ h := hs
+      have ha1 : Answerable ({ s with hostOn := upd s.hostOn h false } : St) a := by
+        obtain ⟨x1, x2, x3⟩ := ha
+        refine ⟨x1, ?_, x3⟩
+        simp [upd, hah, x2]
+      obtain ⟨e4, r4⟩ := res_hostOff_exec ({ s with hostOn := upd s.hostOn h false } : St) h k a (by simp [upd]) hk hc hh hrun
+        hq ha1 hm
+      -- observations of `s` and of the state with the host marked off coincide
+      have conv : ∀ (t' : St) (o : Obs), newIn ({ s with hostOn := upd s.hostOn h false } : St) t' o → newIn s t' o :=
+        fun _ _ h => h
+      generalize maestroPhase h (killPhase h (cpuPhase h ({ s with hostOn := upd s.hostOn h false } : St))) = t4 at e4 r4
+      by_cases hc2 : t4.crashed = true
+      · left; simp [step, hc2]
+      · have h2 : step t4 .handleEnded = handleEndedAll t4 := by simp [step, hc2]
+        rw [h2]
+        have := done_of_res (a := a) (k := k) (r := .exc .host) (max (t4.nActs + 1) t4.failedQ.length) e4 r4 (Nat.le_max_right _ _)
+        exact this
+
 /-! ### killed_on_host_off
 Full-strength statement: `s.hostOn h → a < s.nActors → (s.actors a).host = h → ¬ (s.actors a).ended →
 ((hostOff s h).actors a).wannadie = true`, and the on_exit callbacks of a dying actor get `failed = true`.
@@ -248,5 +335,61 @@ example :
 example :
     let s := run (init [1] (fun _ _ => [0])) [.execStart 0 0, .wait 0 0, .hostOff 0, .handleEnded]
     Obs.answer 0 (.exc .host) 0 ∈ s.obs := by decide
+
+/-! ### non-vacuity of the run-level theorems -/
+
+/-- `failure_reaches_all_waiters`, link: the rendez-vous in flight; sender and receiver both meet the hypotheses … -/
+example :
+    let s := run (init [0, 1] (fun _ _ => [0])) [.isendWait 0 0, .irecvWait 1 0]
+    QOK s ∧ 0 < s.nActs ∧ (s.acts 0).action = some .started ∧ (s.acts 0).state = .running ∧ HitBy s 0 (.linkOff 0) ∧
+    Answerable s 0 ∧ Answerable s 1 ∧ 0 ∈ (s.acts 0).simcalls ∧ 1 ∈ (s.acts 0).simcalls ∧ Survives s 1 (.linkOff 0) := by
+  refine ⟨?_, by decide, by decide, by decide, HitBy.link 0 (by decide) (by decide) (by decide), ?_, ?_, by decide, by decide, trivial⟩
+  · intro j hj
+    have : (run (init [0, 1] (fun _ _ => [0])) [.isendWait 0 0, .irecvWait 1 0]).failedQ = [] := by decide
+    rw [this] at hj; cases hj
+  · unfold Answerable; decide
+  · unfold Answerable; decide
+/-- … and the conclusion is the first alternative for both: answered by the comm itself, NetworkFailureException -/
+example :
+    let s := run (init [0, 1] (fun _ _ => [0])) [.isendWait 0 0, .irecvWait 1 0]
+    newIn s (run s [.linkOff 0, .handleEnded]) (.answer 0 (.exc .net) 0) ∧
+    newIn s (run s [.linkOff 0, .handleEnded]) (.answer 1 (.exc .net) 0) := by
+  unfold newIn; decide
+
+/-- `failure_reaches_all_waiters`, host: actor 0 lives on host 1 and waits for its execution on host 0, which fails -/
+example :
+    let s := run (init [1] (fun _ _ => [0])) [.execStart 0 0, .wait 0 0]
+    QOK s ∧ 0 < s.nActs ∧ (s.acts 0).action = some .started ∧ HitBy s 0 (.hostOff 0) ∧ Answerable s 0 ∧
+    Survives s 0 (.hostOff 0) ∧ 0 ∈ (s.acts 0).simcalls ∧
+    newIn s (run s [.hostOff 0, .handleEnded]) (.answer 0 (.exc .host) 0) := by
+  refine ⟨?_, by decide, by decide, HitBy.hostExec 0 (by decide) (by decide) (by decide), ?_, ?_, by decide, ?_⟩
+  · intro j hj
+    have : (run (init [1] (fun _ _ => [0])) [.execStart 0 0, .wait 0 0]).failedQ = [] := by decide
+    rw [this] at hj; cases hj
+  · unfold Answerable; decide
+  · show (_ : Nat) ≠ 0; decide
+  · unfold newIn; decide
+
+/-- a wait_any over two comms crossing the same link: the issuer is answered by the first one finished, the other
+registration is dropped (third alternative of `DoneR` for activity 1) -/
+example :
+    let s := run (init [0, 1, 1] (fun _ _ => [0])) [.isend 0 0 false, .isend 0 1 false, .irecvWait 1 0, .irecvWait 2 1, .waitAny 0 [0, 1]]
+    Answerable s 0 ∧ 0 ∈ (s.acts 1).simcalls ∧ HitBy s 1 (.linkOff 0) ∧
+    newIn s (run s [.linkOff 0, .handleEnded]) (.answer 0 (.exc .net) 0) ∧
+    ¬ newIn s (run s [.linkOff 0, .handleEnded]) (.answer 0 (.exc .net) 1) := by
+  refine ⟨?_, by decide, HitBy.link 0 (by decide) (by decide) (by decide), ?_, ?_⟩
+  · unfold Answerable; decide
+  · unfold newIn; decide
+  · unfold newIn; decide
+
+/-- `handle_ended_reports_every_failed_action` and `hostOff_fails_every_user`: hypotheses met -/
+example :
+    let t := run (init [0, 1] (fun _ _ => [0])) [.isendWait 0 0, .irecvWait 1 0, .linkOff 0]
+    0 ∈ t.failedQ ∧ Hit t 0 ∧ Answerable t 1 ∧ 1 ∈ (t.acts 0).simcalls := by
+  refine ⟨by decide, Or.inl ⟨by decide, Or.inr (Or.inr (by decide))⟩, ?_, by decide⟩
+  unfold Answerable; decide
+example :
+    let s := run (init [1] (fun _ _ => [0])) [.execStart 0 0, .wait 0 0]
+    0 < s.nActs ∧ (s.acts 0).kind ≠ .comm ∧ 0 ∈ (s.acts 0).hosts ∧ (s.acts 0).action = some .started := by decide
 
 end SgVerif.C10
